@@ -354,22 +354,32 @@ CHECK = {
             "SE(3) action: two random rigid transforms (15% identity, 15% pure yaw, translations up to 1e4) applied to poses up to 1e4 whose "
             "attitude stays 1e-3 rad off gimbal lock before and after each step; ellipse: symmetric PSD 2x2 with condition < 1e8, rank 1 (15%), "
             "zero (5%), isotropic (10%), rotated by special and random angles, sigma in [1e-3, 10]. Non-trivial = distinct case with a finite result.",
-    "trusted": ["hand-written model coq/PoseCovModel.v (+ AnglesModel.v) tied by differential execution (this run)",
+    "trusted": ["translator translate/eigensym.py + tr_C11_eigensym.py: clang JSON AST -> entry-wise symbolic values; its reading of the Eigen operations it accepts (coefficient access, Zero/Identity/Unit*, comma-initialiser block placement, * + - unary -, transpose, col/row/block/head, cross); anything else is refused (fail closed)",
+                "hand-written model coq/PoseCovModel.v (+ AnglesModel.v) tied by differential execution (this run)",
                 "extraction (ExtrOcamlBasic), ocaml/numf.ml, ocaml/drv_C11.ml", "harness/C11.cpp, python/mpmath/numpy oracle in checks/C11.py",
                 "Eigen::JacobiSVD of a symmetric PSD 2x2 matrix = eigen-decomposition (contract of the oracle argument, checked on the model side "
                 "for its closed-form realisation and on the implementation side by the reconstruction oracle)",
                 "Eigen::Transform::rotation() returns the linear part of a rigid transform; Affine3d product = (L'L, L'T+T')"],
     "manifest": {
-        "text": "Coq: toSe2Covariance selects exactly rows/columns (0,1,5); toSe2Covariance after toSe3Covariance is the identity and the embedding "
+        "text": "SYNTACTIC TIE: toSe2Covariance / toSe3Covariance (Matrix.hpp templates instantiated at double: Zero(), the block<2,2> copy, the "
+                "five element writes) and the value-returning conversions toPose2D(Pose3D), toPosition3D(Pose3D) (src/geometry/Pose3D.cpp) and "
+                "toTwist2D(Twist3D) (src/geometry/Twist3D.cpp) and toPoseAndTwist2D(PoseAndTwist3D) (src/geometry/PoseAndTwist3D.cpp, nested "
+                "objects) — with the default constructors of Pose2D / Position3D / Twist2D / PoseAndTwist2D and the "
+                "two-argument overloads inlined — are regenerated from the clang AST on every run by the symbolic Eigen evaluator "
+                "(translate/eigensym.py + tr_C11_eigensym.py -> coq/gen/SrcEigenC11.v) and proved equal to the models of PoseCovModel.v entry by "
+                "entry (coq/SrcTieC11.v; C11_source_tie_reductions, C11_source_tie_toPose2D, C11_source_tie_toPosition3D, C11_source_tie_toTwist2D, C11_source_tie_toPoseAndTwist2D); "
+                "the mean / attitude part of operator*(Affine3d, Pose3D) is tied under C12 (C12_source_tie_pose_jacobian, C12_source_tie_pose_mean). "
+                "Coq: toSe2Covariance selects exactly rows/columns (0,1,5); toSe2Covariance after toSe3Covariance is the identity and the embedding "
                 "is zero elsewhere; symmetry and positive semi-definiteness are preserved by both and by the 3x3 position block; the reductions "
                 "keep x, y, yaw (vx, vy, yaw rate); the position part of operator*(Affine3d, Pose3D) is the SE(3) action (identity neutral, "
                 "composition), the attitude part is R*Rzyx(angles) as a rotation off gimbal lock (identity neutral modulo 2*pi, composition); "
                 "the ellipse has major >= minor >= 0 and R*diag(major^2,minor^2)*R^T/sigma^2 reproduces the covariance under the SVD contract "
                 "(rank-deficient included). Tie: extracted model vs the real classes, oracle written from the property (exact copies compared "
                 "exactly, action and ellipse in mpmath).",
-        "note": "Trusted: Coq kernel, standard real-number axioms; hand transcription checked numerically each run; the SVD is an oracle argument "
+        "note": "Trusted: Coq kernel, standard real-number axioms; the translator's reading of the Eigen operations it accepts and clang's AST; the "
+                "parts of the models not listed under SYNTACTIC TIE (the ellipse) are hand transcriptions checked numerically each run; the SVD is an oracle argument "
                 "with the eigen-form contract U*diag(s)*U^T = cov, U orthogonal, s0 >= s1 >= 0.",
-        "technique": "Coq proof over R (finite sums, ring/nra, atan2 polar lemma) + extracted-model correspondence run + mpmath oracle",
+        "technique": "Coq proof over R (finite sums, ring/nra, atan2 polar lemma) + syntactic source tie (symbolic evaluation of the Eigen matrix code from the clang AST) + extracted-model correspondence run + mpmath oracle",
     },
     "assumptions": ["theorems are over real arithmetic; floating-point behaviour is measured by the correspondence run and the oracle"],
 }
